@@ -45,7 +45,7 @@ func TestBinaryPercentThresholds(t *testing.T) {
 		}
 		defer b.Stop()
 		if !b.AwaitLine("warmup:1|c", "warmup", 30*time.Second) {
-			if b.Exited() {
+			if b.Exited() && !b.BindFailed() {
 				vt.Fail(t, "C08:flush-panic", "%s exited on its first flush; output: %s", b.Describe(), b.Tail(30))
 			}
 			ev.C().Excluded("binary-not-serving", 1)
